@@ -441,7 +441,7 @@ def check_C09(chk):
     c09f(chk)
     c09g(chk)
     c09h(chk)
-    for r, n in (("C09.h", 4), ("C09.a", 2), ("C09.b", 9), ("C09.c", 3), ("C09.d", 10), ("C09.e", 3), ("C09.f", 2), ("C09.g", 2)):
+    for r, n in (("C09.h", 4), ("C09.a", 2), ("C09.b", 7), ("C09.c", 3), ("C09.d", 10), ("C09.e", 3), ("C09.f", 2), ("C09.g", 2)):
         chk.floor(r, n)
 
 
@@ -486,6 +486,33 @@ def _c09c_merged(chk, f):
     gi, ins = an.calls(f, GI), an.calls(f, IF)
     ok_get = ok_ins = ok_comb = False
     why = "expected one get_index_of and one insert_full on self.0"
+    if len(gi) == 0 and len(ins) == 1:
+        # insert_full alone: indexmap's contract is that an equivalent value already in the set is left where it is and its
+        # index returned (with false), a new one is appended and len-1 returned; so Id(insert_full(name).0) is both branches
+        on_self = an.self_field(an.arg_pointee(f, ins[0][1], 0) or (0, ())) == "0"
+        same_name = _param_root_owned(f, ins[0][1]["args"][1]) == 2
+        idst = an.call_dest_local(ins[0][1])
+        srcs = set()
+        n_id = 0
+        for b, i, p, rv, s_ in f.assigns():
+            if rv["k"] == "aggregate" and rv.get("adt") == POP_ID:
+                n_id += 1
+                sl, info = f.slice_locals(rv["ops"][0], through_calls=False)
+                for l in sl:
+                    for d in f.defs.get(l, []):
+                        if d[0] == "assign" and d[3]["k"] == "use":
+                            pl = op_place(d[3]["op"])
+                            if pl and pl[0] == idst and [e[1] for e in pl[1] if e[0] == "field"] == [0]:
+                                srcs.add("inserted")
+                            elif pl and pl[0] == idst:
+                                srcs.add("other-part-of-insert_full")
+                        if d[0] == "assign" and d[3]["k"] == "binop":
+                            srcs.add("arithmetic")
+                        if d[0] == "call" and d[2] is not ins[0][1]:
+                            srcs.add("call")
+        other_mut = [t for b, t in f.calls() if t is not ins[0][1] and "indexmap" in (t["callee"].get("path") or "")]
+        ok_get = ok_ins = ok_comb = on_self and same_name and n_id >= 1 and srcs == {"inserted"} and not other_mut
+        why = "insert_full-only form: Id built from %s, other indexmap calls %d" % (sorted(srcs), len(other_mut))
     if len(gi) == 1 and len(ins) == 1:
         on_self = all(an.self_field(an.arg_pointee(f, t, 0) or (0, ())) == "0" for b, t in gi + ins)
         same_name = _param_root_owned(f, gi[0][1]["args"][1]) == 2 and _param_root_owned(f, ins[0][1]["args"][1]) == 2
